@@ -143,7 +143,7 @@ DotFinal == {[op |-> "Dot", h |-> "d1",
 (* One flag at a time over a neutral base, plus everything at once.                            *)
 FBase == [arr1 |-> FALSE, recarr |-> FALSE, int |-> "bare", bool |-> "bare", str |-> "bare", float |-> "typed",
           qn |-> "PROV", bprefix |-> FALSE, keys |-> "asis", indent |-> FALSE, subtype |-> FALSE, comment |-> FALSE,
-          member |-> FALSE, bodykeys |-> "asis", localns |-> "", eltype |-> FALSE, xsdp |-> "xsd", timetype |-> FALSE]
+          member |-> FALSE, bodykeys |-> "asis", localns |-> "", eltype |-> FALSE, xsdp |-> "xsd", timetype |-> FALSE, brebind |-> FALSE, bundlefirst |-> FALSE]
 FlagSets ==
   { FBase, [FBase EXCEPT !.arr1 = TRUE], [FBase EXCEPT !.recarr = TRUE], [FBase EXCEPT !.int = "typed"],
     [FBase EXCEPT !.int = "typedstr"], [FBase EXCEPT !.int = "long"], [FBase EXCEPT !.bool = "typed"],
@@ -155,10 +155,11 @@ FlagSets ==
     [FBase EXCEPT !.float = "intnum"], [FBase EXCEPT !.bool = "typednum"], [FBase EXCEPT !.eltype = TRUE],
     [FBase EXCEPT !.eltype = TRUE, !.subtype = TRUE],
     [FBase EXCEPT !.timetype = TRUE],
+    [FBase EXCEPT !.brebind = TRUE], [FBase EXCEPT !.brebind = TRUE, !.bundlefirst = TRUE],
     [FBase EXCEPT !.xsdp = "xs"], [FBase EXCEPT !.xsdp = "xs", !.int = "typed", !.bool = "typed", !.str = "typed"],
     [arr1 |-> TRUE, recarr |-> TRUE, int |-> "typedstr", bool |-> "typedstr", str |-> "typed", float |-> "typedstr",
      qn |-> "PROV", bprefix |-> TRUE, keys |-> "reversed", indent |-> TRUE, subtype |-> TRUE, comment |-> TRUE,
-     member |-> TRUE, bodykeys |-> "reversed", localns |-> "new", eltype |-> TRUE, xsdp |-> "xs", timetype |-> TRUE] }
+     member |-> TRUE, bodykeys |-> "reversed", localns |-> "new", eltype |-> TRUE, xsdp |-> "xs", timetype |-> TRUE, brebind |-> FALSE, bundlefirst |-> TRUE] }
 LoadFinal == {[op |-> "Load", h |-> "d1", fmt |-> f, fl |-> x] : f \in Fmts, x \in FlagSets}
 Final == IF FinalOp = "Load" THEN LoadFinal ELSE IF FinalOp = "Dot" THEN DotFinal ELSE IF FinalOp = "Export"
          THEN {[op |-> "Export", h |-> "d1", seq |-> q] : q \in ExportSeqs}
